@@ -15,7 +15,7 @@ import (
 
 func init() {
 	register(&Prop{ID: "C02", Run: runC02, MinNontrivial: 500,
-		Rule:        "cases = (kind: signed SSO Response, signed assertion under an unsigned Response, bad Response signature over well-signed assertions, LogoutRequest, LogoutResponse) x (signer: store member i of n, untrusted key, trusted certificate with foreign key, same key under another certificate, KeyInfo absent) x (store: 0-3 certificates, RSA/ECDSA, signer's certificate present or not) x (SP clock at NotBefore-1s, NotBefore+1s, middle, NotAfter-1s, NotAfter+1s of the signing certificate) x (tamper: none, signed text altered, signed attribute altered); oracle: signature honoured iff certificate in store and key matches and window contains the injected now and untampered and (KeyInfo present or store size 1); a present but bad signature is an error, never 'accepted unflagged'; evidence counts clock reads whose stack contains verifyCertificate; non-trivial = reached signature processing; distinct by parameter tuple; also stores holding a renewed certificate over the same key, and a store-rollover class (outgoing + incoming certificate in a stock memory store, one SP, clock moving across the hand-over; the store must stay as configured); tamper sig-nested (own signature moved into an Extensions child); same-subject roll-over stores; store members with odd key-usage profiles; KeyInfo-less messages and doubled entries in the store-rollover class; tamper sigmethod-swapped (registered and unknown SignatureMethod / DigestMethod identifiers)",
+		Rule:        "cases = (kind: signed SSO Response, signed assertion under an unsigned Response, bad Response signature over well-signed assertions, LogoutRequest, LogoutResponse) x (signer: store member i of n, untrusted key, trusted certificate with foreign key, same key under another certificate, KeyInfo absent) x (store: 0-3 certificates, RSA/ECDSA, signer's certificate present or not) x (SP clock at NotBefore-1s, NotBefore+1s, middle, NotAfter-1s, NotAfter+1s of the signing certificate) x (tamper: none, signed text altered, signed attribute altered); oracle: signature honoured iff certificate in store and key matches and window contains the injected now and untampered and (KeyInfo present or store size 1); a present but bad signature is an error, never 'accepted unflagged'; evidence counts clock reads whose stack contains verifyCertificate; non-trivial = reached signature processing; distinct by parameter tuple; also stores holding a renewed certificate over the same key, and a store-rollover class (outgoing + incoming certificate in a stock memory store, one SP, clock moving across the hand-over; the store must stay as configured); tamper sig-nested (own signature moved into an Extensions child); same-subject roll-over stores; store members with odd key-usage profiles; KeyInfo-less messages and doubled entries in the store-rollover class; tamper sigmethod-swapped (registered and unknown SignatureMethod / DigestMethod identifiers); stores listing Ed25519 certificates beside the one usable member",
 		Assumptions: []string{"exact NotBefore/NotAfter instants are not probed (X.509 validity is inclusive; the property says inside)", "wall time is decades away from every certificate window"}})
 }
 
@@ -25,7 +25,7 @@ func runC02(c *mon.Ctx) {
 	nb, na := base, base.Add(2*time.Hour)
 	certFor := func(name string, serial int64) *sim.Cert { return sim.Mint(sim.K(name), nb, na, serial) }
 	kinds := []string{"sso-resp", "sso-assert", "sso-bad-resp-over-good-assertions", "logout-req", "logout-resp"}
-	signers := []string{"member", "member", "member", "untrusted", "foreign-key", "same-key-other-cert", "no-keyinfo", "no-keyinfo", "twin-member", "mixed-validity-store", "renewed-same-key"}
+	signers := []string{"member", "member", "member", "untrusted", "foreign-key", "same-key-other-cert", "no-keyinfo", "no-keyinfo", "twin-member", "mixed-validity-store", "renewed-same-key", "beside-unusable-member"}
 	clocks := []struct {
 		name   string
 		t      time.Time
@@ -95,6 +95,22 @@ func runC02(c *mon.Ctx) {
 			storeSize = len(store)
 			signCert, signKey, inStore = cur, cur.Key, true
 			mixedNoKI = r.IntN(2) == 0
+		case "beside-unusable-member":
+			// the store lists, next to one RSA / ECDSA certificate, certificates whose keys no XML-DSig method uses
+			// (Ed25519): they are members all the same, so a message without a certificate cannot be attributed
+			usable := certFor(keyNames[perm[0]], 10)
+			store = []*sim.Cert{usable}
+			for i := 0; i < 1+r.IntN(2); i++ {
+				e := sim.Mint(sim.K([]string{"ed1", "ed2"}[i]), nb.AddDate(-1, 0, 0), na.AddDate(1, 0, 0), 15)
+				if r.IntN(2) == 0 {
+					store = append(store, e)
+				} else {
+					store = append([]*sim.Cert{e}, store...)
+				}
+			}
+			storeSize = len(store)
+			signCert, signKey, inStore = usable, usable.Key, true
+			mixedNoKI = r.IntN(3) != 0
 		case "twin-member":
 			// store members of different keys that share subject and serial number: each must vouch for itself only
 			store = nil
